@@ -164,6 +164,8 @@ def fold(
             repr_list = [f'{k}: {v}' for k, v in value.items()]
     elif reprs:
         repr_list = [repr(v) for v in value]
+        if isinstance(value, tuple) and len(repr_list) == 1:
+            repr_list[0] += ','  # a 1-tuple needs its trailing comma to read back as a tuple
     else:
         repr_list = value
 
